@@ -2,14 +2,14 @@ SPECIFICATION CSpec
 CONSTANTS
   Series = {"s1", "s2"}
   TOff = 0
-  TimesRaw = {1, 3, 5, 9, 13}
+  TimesRaw = {1, 3, 5}
   Vals = {1}
   Types = {"f"}
   Apps = {"a1"}
   R = 4
   W = 5
   OOOCap = 2
-  Acts = {"NewAppender", "Append", "Commit", "Compact", "CompactOOO", "Reopen"}
+  Acts = {"NewAppender", "Append", "Commit", "Compact", "Reopen"}
   Apis = {"v1"}
   Rej = {FALSE}
   DelLo = {0}
@@ -22,10 +22,12 @@ CONSTANTS
   Balanced = FALSE
   EmitMode = "none"
   BigSeries = {"s2"}
-  ScriptName = "s3"
+  ScriptName = "k1"
   MaxCrashes = 1
-  CAllowKF = {}
+  CAllowKF = {"KF-C03-1", "KF-C03-2", "KF-C03-3"}
+  CrashOdds = 1
+  RecOdds = 1
   CEmit = "none"
 VIEW CView
-INVARIANTS Survive FilesAgree BlocksAgree OpenCleans WalShape InoSorted
+INVARIANTS SurviveStrict Survive FilesAgree BlocksAgree OpenCleans WalShape InoSorted
 CHECK_DEADLOCK FALSE
